@@ -685,7 +685,7 @@ impl Database {
                         Some(value) if value.state == ValueStatus::New => None,
                         Some(value) => Some(Value {
                             value: String::from("<Empty>"),
-                            version: value.version + 1,
+                            version: value.version.saturating_add(1),
                             state: ValueStatus::Deleted,
                             value_disk_addr: value.value_disk_addr,
                             key_disk_addr: value.key_disk_addr,
